@@ -274,7 +274,8 @@ namespace
                 std::size_t ns = is_small ? r.range(1, 24) : r.range(8, 48);
                 std::size_t nn = r.range(8, 700);
                 // variants: the class of the bad call
-                static const char* small_classes[] = {"foreign-pointer", "chunk-header", "before-first-chunk", "after-last-chunk", "misaligned"};
+                static const char* small_classes[] = {"foreign-pointer", "chunk-header", "before-first-chunk", "after-last-chunk", "misaligned",
+                                                      "one-node-past-chunk-end"};
                 static const char* dbl_classes[]   = {"double-free-first", "double-free-last", "double-free-most-recent", "double-free-middle",
                                                       "double-free-list-neighbour-of-most-recent"};
                 std::vector<const char*> classes;
@@ -299,8 +300,25 @@ namespace
                 int o = in_child([&] {
                     rng cr(seed);
                     prefix_handler();
-                    P    pool(ns, P::min_block_size(ns, nn));
+                    // (32 bytes of slack: less than a chunk header plus a node, so no further chunk is made of it, but the address one
+                    //  node past the last node of the last chunk is still inside the block)
+                    P    pool(ns, P::min_block_size(ns, nn) + (cl == "one-node-past-chunk-end" ? 32 : 0));
                     auto node = pool.node_size();
+                    if (cl == "one-node-past-chunk-end")
+                    {
+                        // take every node: the highest address is the last node of the last chunk
+                        std::vector<char*> all;
+                        while (pool.capacity_left() >= node)
+                            all.push_back(static_cast<char*>(pool.allocate_node()));
+                        auto last = *std::max_element(all.begin(), all.end());
+                        for (std::size_t i = 0; i < all.size(); ++i)
+                            if (cr.chance(50) && all[i] != last)
+                                pool.deallocate_node(all[i]);
+                        arm_handler();
+                        pool.deallocate_node(last + node); // not a node of the pool, directly behind its last one
+                        pool.allocate_node();
+                        _exit(0);
+                    }
                     // valid prefix: allocate, release some in random order, allocate again; may grow
                     std::vector<char*> live, freed;
                     int steps = int(cr.range(5, 400));
